@@ -147,7 +147,8 @@ type Engine struct {
 	intTerms       []*smt.Term             // ideal mode: real-sorted terms known to be integer-valued
 	truncOf        map[*smt.Term]*smt.Term // ideal mode: truncation is a function (same argument, same result)
 	knownTries     map[string]int
-	autoHints      []*smt.Term // per path: rate-like inputs fixed to simple values (concrete-witness search only)
+	symStrings     map[string]*smt.Term // printed form of symbolic integers -> term (Int.String / NewIntFromString round trip)
+	autoHints      []*smt.Term          // per path: rate-like inputs fixed to simple values (concrete-witness search only)
 	autoNames      map[string]bool
 	intVars        []*smt.Term // ideal mode: the real-sorted variables standing for integer inputs (nd.IntRange)
 	exactNext      bool
@@ -189,7 +190,7 @@ func NewEngine(harness string, ideal bool, solverCmd []string, lim Limits) (*Eng
 		Ctx: ctx, S: s, Harness: harness, Lim: lim,
 		Obl: map[string]*ObligationResult{}, Reached: map[string]int{}, ReachWit: map[string]*Witness{},
 		Aborted: map[string]int{}, Funcs: map[string]int64{}, StubsHit: map[string]int{},
-		Ranges: map[string]rangeDecl{}, reachTries: map[string]int{}, knownTries: map[string]int{}, crossDone: map[string]int{}, Cross: map[string]int{}, NondetSites: map[string]int{}, KnownHits: map[string]int{}, KnownWit: map[string]*Witness{},
+		Ranges: map[string]rangeDecl{}, reachTries: map[string]int{}, knownTries: map[string]int{}, symStrings: map[string]*smt.Term{}, crossDone: map[string]int{}, Cross: map[string]int{}, NondetSites: map[string]int{}, KnownHits: map[string]int{}, KnownWit: map[string]*Witness{},
 	}, nil
 }
 
